@@ -28,13 +28,13 @@ theorem mapGet_mapDel_some {α} (k k' : Nat) (l : List (Nat × α)) (v : α) (h 
         exact ih h
 
 /-- `(C r).isStatic` is "the pattern has no parameter and no wildcard" -/
-theorem C_static_iff (r : Route) (hn : NormalPat r.text r.pat) (ht : trimSpace r.text = r.text) :
+theorem C_static_iff (r : Route) (hn : NormalPat r.text r.pat) :
     (C r).isStatic = isStaticPat r.pat := by
   by_cases hpe : r.pat = []
   · unfold C; rw [compileRoute_root r hn hpe, hpe]; rfl
   · cases hw : endsWild r.pat with
     | true =>
-      have := (compileRoute_wild r hn ht hpe hw).1
+      have := (compileRoute_wild r hn hpe hw).1
       unfold C; rw [this]
       have hsp := pat_split r.pat
       rw [hw] at hsp
@@ -43,7 +43,7 @@ theorem C_static_iff (r : Route) (hn : NormalPat r.text r.pat) (ht : trimSpace r
       simp [isStaticPat, kind]
     | false =>
       unfold C
-      rw [compileRoute_dyn r hn ht hpe hw]
+      rw [compileRoute_dyn r hn hpe hw]
       simp only
       have hpok := normal_patOK _ _ hn
       unfold patOK at hpok
@@ -95,17 +95,17 @@ structure StatInv (hash : Bytes → Nat) (h0 : Nat) (Rp : List Route) (rc : RC) 
   get : mapGet h0 rc.staticRoutes = RadixL.lastSome (statAns hash h0) Rp
   bloom : ∀ h, (mapGet h rc.staticRoutes).isSome = true → Bloom.has rc.staticBloom h
 
-/-- the routes the static stage reasons about: of the vocabulary, untrimmed, standard methods, and
-`pat` is the parse of `text` -/
+/-- the routes the static stage reasons about: of the vocabulary, standard methods, and `pat` is the
+parse of `text` -/
 def StatR (R : List Route) : Prop :=
-  ∀ r ∈ R, NormalPat r.text r.pat ∧ trimSpace r.text = r.text ∧ r.method ∈ stdMethods ∧ parsePattern r.text = some r.pat
+  ∀ r ∈ R, NormalPat r.text r.pat ∧ r.method ∈ stdMethods ∧ parsePattern r.text = some r.pat
 
 theorem stat_step (hash : Bytes → Nat) (h0 : Nat) (R Rp : List Route) (rc : RC) (r : Route)
     (hR : StatR R) (hsub : ∀ x ∈ Rp, x ∈ R) (hr : r ∈ R)
     (hinj : InjOn hash (R.map fun r => r.method ++ r.text))
     (hinv : StatInv hash h0 Rp rc) : StatInv hash h0 (Rp ++ [r]) (rcRegisterR hash rc r) := by
-  obtain ⟨hn, ht, hm, hpp⟩ := hR r hr
-  obtain ⟨hmeth, hpatt, _⟩ := C_meta r hn ht
+  obtain ⟨hn, hm, hpp⟩ := hR r hr
+  obtain ⟨hmeth, hpatt, _⟩ := C_meta r hn
   have hkey : hash ((C r).method ++ (C r).pattern) = hash (r.method ++ r.text) := by rw [hmeth, hpatt]
   have hmap : (rcRegisterR hash rc r).staticRoutes =
       if (C r).isStatic then mapSet (hash (r.method ++ r.text)) (C r) (mapDel (hash (r.method ++ r.text)) rc.staticRoutes)
@@ -140,7 +140,7 @@ theorem stat_step (hash : Bytes → Nat) (h0 : Nat) (R Rp : List Route) (rc : RC
           unfold statAns
           by_cases hc : (C r').isStatic = true ∧ hash (r'.method ++ r'.text) = h0
           · exfalso
-            obtain ⟨hn', ht', hm', hpp'⟩ := hR r' (hsub r' hr')
+            obtain ⟨hn', hm', hpp'⟩ := hR r' (hsub r' hr')
             have heq := hinj (r'.method ++ r'.text) (List.mem_map.mpr ⟨r', hsub r' hr', rfl⟩)
               (r.method ++ r.text) (List.mem_map.mpr ⟨r, hr, rfl⟩) (by rw [hc.2, hk])
             have hhead : ∀ (x : Route), NormalPat x.text x.pat → x.text.head? = some '/' := by
@@ -151,8 +151,8 @@ theorem stat_step (hash : Bytes → Nat) (h0 : Nat) (R Rp : List Route) (rc : RC
               rw [hpp] at hpp'
               injection hpp' with hpp'
               exact hpp'.symm
-            have h1 := C_static_iff r' hn' ht'
-            have h2 := C_static_iff r hn ht
+            have h1 := C_static_iff r' hn'
+            have h2 := C_static_iff r hn
             rw [hpat] at h1
             rw [h1, ← h2] at hc
             exact hst hc.1
@@ -280,7 +280,7 @@ theorem stage1_eq (hash : Bytes → Nat) (sat : Nat → Bytes → Bool) (noRoute
     rw [this] at h; cases h
   obtain ⟨R1, ρ, R2, hsplit, hρP, hR2⟩ := last_sat _ R hne
   have hρR : ρ ∈ R := by rw [hsplit]; simp
-  obtain ⟨hn, ht, hmstd, _⟩ := hR ρ hρR
+  obtain ⟨hn, hmstd, _⟩ := hR ρ hρR
   have hρans : statAns hash (hash (req.method ++ req.path)) ρ = some (C ρ) := by
     unfold statAns at hρP ⊢
     split
@@ -303,7 +303,7 @@ theorem stage1_eq (hash : Bytes → Nat) (sat : Nat → Bytes → Bool) (noRoute
   have heq := hinj (ρ.method ++ ρ.text) (List.mem_cons_of_mem _ (List.mem_map.mpr ⟨ρ, hρR, rfl⟩))
     (req.method ++ req.path) (List.mem_cons_self ..) hρc.2
   obtain ⟨hρm, hρt⟩ := append_inj_noslash _ _ _ _ (std_noslash _ hmstd) hmeth hhead hp heq
-  have hρs : isStaticPat ρ.pat = true := by rw [← C_static_iff ρ hn ht]; exact hρc.1
+  have hρs : isStaticPat ρ.pat = true := by rw [← C_static_iff ρ hn]; exact hρc.1
   have hρmatch := (static_match_text ρ hn hρs req.path hp).mp hρt
   have hρrm := routeMatch_static sat ρ (hNR ρ hρR).2 hρs (cutAny req.path) hρmatch
   -- the reference choice is ρ
@@ -328,12 +328,12 @@ theorem stage1_eq (hash : Bytes → Nat) (sat : Nat → Bytes → Bool) (noRoute
         | false => rfl
         | true =>
           exfalso
-          obtain ⟨hnc, htc, _, _⟩ := hR c hcR
+          obtain ⟨hnc, _, _⟩ := hR c hcR
           have hctx := (static_match_text c hnc hcs req.path hp).mpr hcmatch
           have := hR2 c hcR2
           have hans : statAns hash (hash (req.method ++ req.path)) c = some (C c) := by
             unfold statAns
-            rw [if_pos ⟨by rw [C_static_iff c hnc htc]; exact hcs, by rw [hcm, hctx]⟩]
+            rw [if_pos ⟨by rw [C_static_iff c hnc]; exact hcs, by rw [hcm, hctx]⟩]
           rw [hans] at this; simp at this
       exact better_static_dyn _ _ _ _ hρs hcns hρmatch hcmatch
   have hlook := lemma_lookupM sat noRoute script R hRs hN hstd req.method req.path hp
@@ -341,7 +341,7 @@ theorem stage1_eq (hash : Bytes → Nat) (sat : Nat → Bytes → Bool) (noRoute
   rw [href] at hlook
   simp only [Option.map_some, hρrm, Option.getD_some] at hlook
   rw [lemma_serve_lookup, hlook]
-  obtain ⟨_, hpatt, hrid⟩ := C_meta ρ hn ht
+  obtain ⟨_, hpatt, hrid⟩ := C_meta ρ hn
   have htne : ρ.text ≠ [] := by rw [hn.text]; simp [render]
   simp only [servedStatic, served, leafOf, hcr, hpatt, hrid, htne, if_false, pushAll, List.foldl_nil]
   have h1 : Ctx.fresh.all = [] := rfl
